@@ -148,14 +148,14 @@ func (w *World) bumpPointLocked(point string) {
 
 // waitPoint blocks until the yield point has been released n times in total,
 // or until max has passed.
-func (w *World) waitPoint(point string, n int, max time.Duration) {
+func (w *World) waitPoint(point string, n int, max time.Duration) bool {
 	if n <= 0 {
 		n = 1
 	}
 	w.mu.Lock()
 	if w.pointN[point] >= n {
 		w.mu.Unlock()
-		return
+		return true
 	}
 	pw := &pointWaiter{n: n, ch: make(chan struct{})}
 	w.waiters[point] = append(w.waiters[point], pw)
@@ -167,7 +167,9 @@ func (w *World) waitPoint(point string, n int, max time.Duration) {
 	defer t.Stop()
 	select {
 	case <-pw.ch:
+		return true
 	case <-t.C:
+		return false
 	}
 }
 
@@ -561,7 +563,9 @@ func (w *World) runActor(a *ActorSpec) {
 	for i := range a.Ops {
 		op := &a.Ops[i]
 		if op.After != "" {
-			w.waitPoint(op.After, op.AfterN, op.Delay)
+			if !w.waitPoint(op.After, op.AfterN, op.Delay) && op.Strict {
+				continue // the moment it was meant for never came (the yield point may be switched off in this run)
+			}
 		} else if op.Delay > 0 {
 			w.S.Sleep(op.Delay)
 		}
